@@ -4,9 +4,12 @@ import (
 	"encoding/base64"
 	"encoding/json"
 	"fmt"
+	"os"
 	"path/filepath"
 	"sort"
 	"strings"
+
+	"github.com/dgraph-io/badger/v4"
 
 	"github.com/mimiro-io/datahub/internal/server"
 	dsvc "github.com/mimiro-io/datahub/internal/service/dataset"
@@ -19,14 +22,25 @@ import (
 
 const storeNS = "http://s/"
 
+// restored hubs (C20): the backup location loaded into a fresh store
+type restored struct {
+	h   *Hub
+	dir string
+}
+
 type histRun struct {
-	c     *Ctx
-	h     *Hub
-	dir   string
-	times []int64 // commit time per op index (0 = none)
-	rids  map[string]uint64
-	dsids map[string]uint32
-	conts map[string][]*server.RelatedFrom // saved query continuations by label
+	bm        *server.BackupManager
+	backupDir string
+	backupGen int
+	rest      *restored
+	restGen   int
+	c         *Ctx
+	h         *Hub
+	dir       string
+	times     []int64 // commit time per op index (0 = none)
+	rids      map[string]uint64
+	dsids     map[string]uint32
+	conts     map[string][]*server.RelatedFrom // saved query continuations by label
 }
 
 func toEntity(m M) *server.Entity {
@@ -321,6 +335,43 @@ func jsonRoundTrip(v interface{}) interface{} {
 	return o
 }
 
+// queryRestored answers a query on a hub restored from the backup location (badger Load of the
+// backup file into an empty directory, then a normal store start).
+func (r *histRun) queryRestored(q M, idx int) interface{} {
+	if r.backupGen == 0 {
+		return M{"err": "nobackup"}
+	}
+	if r.rest == nil || r.restGen != r.backupGen {
+		if r.rest != nil {
+			r.rest.h.Destroy()
+			r.rest = nil
+		}
+		rdir := fmt.Sprintf("%s-restore%d", r.dir, r.backupGen)
+		_ = os.RemoveAll(rdir)
+		db, err := badger.Open(badger.DefaultOptions(rdir).WithLogger(nil))
+		if err != nil {
+			return M{"err": "open: " + err.Error()}
+		}
+		f, err := os.Open(filepath.Join(r.backupDir, "datahub-backup.kv"))
+		if err != nil {
+			db.Close()
+			return M{"err": "nofile"}
+		}
+		err = db.Load(f, 16)
+		f.Close()
+		db.Close()
+		if err != nil {
+			return M{"err": "load: " + err.Error()}
+		}
+		r.rest = &restored{h: OpenHub(rdir, false), dir: rdir}
+		r.restGen = r.backupGen
+	}
+	saved := r.h
+	r.h = r.rest.h
+	defer func() { r.h = saved }()
+	return r.query(q, idx)
+}
+
 func beUint64(b []byte) uint64 {
 	var v uint64
 	for i := 0; i < 8; i++ {
@@ -337,7 +388,15 @@ func runStoreHist(c *Ctx, in M) (M, interface{}) {
 	dir := filepath.Join(c.Dir, fmt.Sprintf("st%d", storeRunN))
 	r := &histRun{c: c, dir: dir, rids: map[string]uint64{}, dsids: map[string]uint32{}, conts: map[string][]*server.RelatedFrom{}}
 	r.h = OpenHub(dir, false)
-	defer func() { r.h.Destroy() }()
+	defer func() {
+		r.h.Destroy()
+		if r.rest != nil {
+			r.rest.h.Destroy()
+		}
+		if r.backupDir != "" {
+			_ = os.RemoveAll(r.backupDir)
+		}
+	}()
 	r.h.Store.NamespaceManager.AssertPrefixMappingForExpansion(storeNS) // ns3
 	ops := getl(in, "ops")
 	r.times = make([]int64, len(ops))
@@ -438,6 +497,25 @@ func runStoreHist(c *Ctx, in M) (M, interface{}) {
 				if err := cw.VerifCompact(gets(op, "ds"), geti(op, "threshold")); err != nil {
 					op["rc"] = "err"
 				}
+			case "backup":
+				if r.bm == nil {
+					r.backupDir = r.dir + "-backup"
+					bm, err := server.VerifNewBackupManager(r.h.Store, r.backupDir, false, quietLogger())
+					if err != nil {
+						op["rc"] = "err"
+						continue
+					}
+					r.bm = bm
+				}
+				func() {
+					defer func() {
+						if p := recover(); p != nil {
+							op["rc"] = "panic"
+						}
+					}()
+					r.bm.Run()
+				}()
+				r.backupGen++
 			case "gc":
 				gc := server.NewGarbageCollector(r.h.Store, r.h.Env)
 				if err := gc.Cleandeleted(); err != nil {
@@ -446,8 +524,18 @@ func runStoreHist(c *Ctx, in M) (M, interface{}) {
 			case "reopen":
 				r.h.Close()
 				r.h = OpenHub(dir, false)
+				if r.bm != nil { // a restarted hub builds a new backup manager (cursor reloaded from the location)
+					bm, err := server.VerifNewBackupManager(r.h.Store, r.backupDir, false, quietLogger())
+					if err == nil {
+						r.bm = bm
+					}
+				}
 			case "q":
-				obs = append(obs, r.query(op, i))
+				if gets(op, "on") == "restore" {
+					obs = append(obs, r.queryRestored(op, i))
+				} else {
+					obs = append(obs, r.query(op, i))
+				}
 			}
 		}
 	}()
@@ -467,6 +555,7 @@ type storeGen struct {
 	ids      []string
 	preds    []string
 	dss      []string
+	pending  []M // continuations of relation queries that are followed later
 }
 
 func (g *storeGen) value() interface{} {
@@ -540,12 +629,20 @@ func (g *storeGen) batch() []M {
 func (g *storeGen) queries(opIdx int, nops int) []M {
 	r := g.c.Rng
 	qs := []M{}
+	if len(g.pending) > 0 && r.Intn(3) == 0 {
+		p := g.pending[r.Intn(len(g.pending))]
+		cp := M{}
+		for k, v := range p {
+			cp[k] = v
+		}
+		qs = append(qs, cp)
+	}
 	ds := g.dss[r.Intn(len(g.dss))]
 	pick := g.kinds[r.Intn(len(g.kinds))]
 	switch pick {
 	case 6:
 		names := append([]string{"core.Dataset", "zz"}, g.allNames...)
-		return []M{{"op": "q", "q": "catalogue", "names": names}}
+		return append(qs, M{"op": "q", "q": "catalogue", "names": names})
 	case 0:
 		qs = append(qs, M{"op": "q", "q": "list", "ds": ds, "pages": [][]int{{0}, {1, 1, 1, 1, 1, 1, 1}, {2, 3, 0}, {3, 2, 2, 2}}[r.Intn(4)]})
 	case 1:
@@ -589,9 +686,12 @@ func (g *storeGen) queries(opIdx int, nops int) []M {
 			lbl := fmt.Sprintf("c%d", opIdx)
 			q["save"] = lbl
 			qs = append(qs, q)
-			for k := 0; k < 4; k++ {
+			// some continuations are followed straight away, the rest after later operations (a token
+			// handed to a client outlives writes, dataset deletion, garbage collection and restarts)
+			for k := 0; k < r.Intn(5); k++ {
 				qs = append(qs, M{"op": "q", "q": "related", "cont": lbl, "save": lbl, "limit": q["limit"], "inverse": q["inverse"]})
 			}
+			g.pending = append(g.pending, M{"op": "q", "q": "related", "cont": lbl, "save": lbl, "limit": q["limit"], "inverse": q["inverse"]})
 			return qs
 		}
 		qs = append(qs, q)
@@ -601,7 +701,7 @@ func (g *storeGen) queries(opIdx int, nops int) []M {
 
 var storeProfiles = map[string][]int{
 	"c01": {0, 0, 2, 3}, "c02": {1}, "c03": {4, 5}, "c06": {2, 4, 5}, "all": {0, 1, 2, 3, 4, 5},
-	"c07": {0, 1, 2, 3, 4, 5, 6}, "c19": {6, 6, 0}, "c12": {0, 1, 2, 3, 4, 5}, "c14": {0, 1, 2, 4, 6},
+	"c20": {0, 1, 2, 4}, "c07": {0, 1, 2, 3, 4, 5, 6}, "c19": {6, 6, 0}, "c12": {0, 1, 2, 3, 4, 5}, "c14": {0, 1, 2, 4, 6},
 }
 
 // a dataset with several hundred entities, listed with small pages by following the tokens
@@ -645,7 +745,11 @@ func genStore(c *Ctx, profile string) {
 		g := &storeGen{kinds: storeProfiles[profile], atOnly: profile == "c06", c: c, ids: []string{"ns3:e1", "ns3:e2", "ns3:e3", "ns3:e4", "ns3:e5"}, preds: []string{"ns3:r1", "ns3:r2", "ns3:r3"}, dss: []string{"a", "b", "c"}[:2+c.Rng.Intn(2)]}
 		ops := []M{}
 		for _, d := range g.dss {
-			ops = append(ops, M{"op": "createDs", "name": d})
+			op := M{"op": "createDs", "name": d}
+			if c.Rng.Intn(4) == 0 {
+				op["publicNamespaces"] = []string{"http://s/"}
+			}
+			ops = append(ops, op)
 		}
 		g.allNames = append([]string{}, g.dss...)
 		mgmt := profile == "c07" || profile == "c19" || profile == "c14"
@@ -656,7 +760,21 @@ func genStore(c *Ctx, profile string) {
 				case m < 2 && len(g.dss) > 1:
 					i := c.Rng.Intn(len(g.dss))
 					ops = append(ops, M{"op": "deleteDs", "name": g.dss[i]})
+					gone := g.dss[i]
 					g.dss = append(g.dss[:i:i], g.dss[i+1:]...)
+					// what typically follows a delete: a restart, garbage collection, the name being reused
+					switch c.Rng.Intn(6) {
+					case 0:
+						ops = append(ops, M{"op": "reopen"})
+					case 1:
+						ops = append(ops, M{"op": "gc"}, M{"op": "reopen"})
+					case 2:
+						ops = append(ops, M{"op": "reopen"}, M{"op": "createDs", "name": gone})
+						g.dss = append(g.dss, gone)
+					case 3:
+						ops = append(ops, M{"op": "createDs", "name": gone})
+						g.dss = append(g.dss, gone)
+					}
 				case m < 4:
 					// create a new name or re-create one that was deleted
 					name := []string{"a", "b", "c", "d"}[c.Rng.Intn(4)]
@@ -692,6 +810,22 @@ func genStore(c *Ctx, profile string) {
 				}
 				for q := 0; q < 1+c.Rng.Intn(3); q++ {
 					ops = append(ops, g.queries(len(ops), nops)...)
+				}
+				continue
+			}
+			if profile == "c20" && c.Rng.Intn(3) == 0 {
+				if c.Rng.Intn(3) == 0 {
+					ops = append(ops, M{"op": "reopen"})
+				} else {
+					ops = append(ops, M{"op": "backup"})
+				}
+				for q := 0; q < 1+c.Rng.Intn(3); q++ {
+					for _, qq := range g.queries(len(ops), nops) {
+						if _, hasAt := qq["at"]; !hasAt && qq["cont"] == nil && qq["save"] == nil {
+							qq["on"] = "restore"
+							ops = append(ops, qq)
+						}
+					}
 				}
 				continue
 			}
@@ -746,7 +880,7 @@ func doHist(c *Ctx, in M) {
 }
 
 func init() {
-	for _, p := range []string{"c01", "c02", "c03", "c06", "all", "c07", "c19", "c12", "c14"} {
+	for _, p := range []string{"c01", "c02", "c03", "c06", "all", "c07", "c19", "c12", "c14", "c20"} {
 		p := p
 		register("store-"+p, func(c *Ctx) { genStore(c, p) })
 	}
